@@ -10,7 +10,7 @@ flatten buffer in loop order and exactly one hand-off.
 Not decided: that parsing succeeds on every mistake-free input; literal-form acceptance."""
 import re
 
-from vlib import mir, scan, tpl, derived
+from vlib import resalg, mir, scan, tpl, derived
 from vlib import sym as S
 from . import common
 
@@ -62,24 +62,31 @@ def run(ctx):
         ctx.ob("C01.wire.shape", f.key, "one Field construction", len(aggs) == 1, "%d" % len(aggs))
         if aggs:
             r = aggs[0][2]["r"]
-            m = {n: ctx.expr(f, o) for n, o in zip(r["fields"], r["ops"])}
+            # every codegen Field member as a case table over the parsed options (helpers,
+            # combinators and closures looked through): the wiring is the identity except for the
+            # documented fallbacks
+            m = {n: sorted(resalg.expr_cases(ctx, f, o)) for n, o in zip(r["fields"], r["ops"])}
+            D = "darling_core::codegen::default_expr::DefaultExpression::"
             want = {
-                "ident": r"^self\.ident$", "ty": r"^self\.ty$", "post_transform": r"^self\.post_transform$",
-                "skip": r"^unwrap_or_default\(self\.skip\)$", "multiple": r"^unwrap_or_default\(self\.multiple\)$",
-                "flatten": r"^is_some\(self\.flatten\.0\)$",
-                "default_expression": r"^darling_core::options::input_field::InputField::as_codegen_default\(self\)$",
-                "name_in_attr": r"^core::option::Option::<T>::map_or_else\(self\.attr_name, closure .*, fn alloc::borrow::Cow::Borrowed\)$",
-                "with_callable": r"^core::option::Option::<T>::map_or_else\(core::option::Option::<T>::map\(self\.with, closure .*\), closure .*, fn alloc::borrow::Cow::Borrowed\)$",
+                "ident": [([], "self.ident")], "ty": [([], "self.ty")], "post_transform": [([], "self.post_transform")],
+                "skip": [([], "unwrap_or_default(self.skip)")], "multiple": [([], "unwrap_or_default(self.multiple)")],
+                "flatten": [([], "is_some(self.flatten.0)")],
+                "name_in_attr": sorted([(["is_some(self.attr_name)=True"], "alloc::borrow::Cow::Borrowed{(self.attr_name as Some).0}"),
+                                        (["is_some(self.attr_name)=False"], "alloc::borrow::Cow::Owned{<T as alloc::string::ToString>::to_string(self.ident)}")]),
+                "default_expression": sorted([
+                    (["discr((self.default as Some).0)=Trait", "is_some(self.default)=True"], "core::option::Option::Some{%sTrait{((self.default as Some).0 as Trait).span}}" % D),
+                    (["discr((self.default as Some).0)=Inherit", "is_some(self.default)=True"], "core::option::Option::Some{%sInherit{self.ident}}" % D),
+                    (["discr((self.default as Some).0)=Explicit", "is_some(self.default)=True"], "core::option::Option::Some{%sExplicit{((self.default as Some).0 as Explicit).0}}" % D),
+                    (["is_some(self.default)=False"], "core::option::Option::None{}")]),
             }
-            for k, rx in want.items():
-                ctx.ob("C01.wire.field-identity", f.key, "Field.%s" % k, k in m and bool(re.search(rx, m[k])), "Field.%s <= %s" % (k, m.get(k, "?")[:200]))
-            cl = {c.key.rsplit("::", 1)[-1]: ctx.ret_values(c) for c in ctx.closures_of(f)}
-            ctx.ob("C01.wire.name-fallback-is-ident", f.key, "closure#0", cl.get("{closure#0}") == ["alloc::borrow::Cow::Owned{<T as alloc::string::ToString>::to_string(self.ident)}"], str(cl.get("{closure#0}")))
-            c2 = [c for c in ctx.closures_of(f) if c.key.endswith("{closure#2}")]
-            if c2:
-                T = tpl.Templates(c2[0])
-                txt = " ".join(T.text(s) for s in T.by_stream)
-                ctx.ob("C01.wire.converter-fallback", c2[0].key, "default converter", ":: darling :: FromMeta :: from_meta" in txt, "parse_quote!(%s)" % txt)
+            for k, w in want.items():
+                ctx.ob("C01.wire.field-identity", f.key, "Field.%s" % k, m.get(k) == w, "Field.%s <= %s" % (k, str(m.get(k, "?"))[:300]))
+            wc = m.get("with_callable", [])
+            ok = len(wc) == 2 and (["is_some(self.with)=True"], "alloc::borrow::Cow::Borrowed{(self.with as Some).0.call}") in wc and any(c == ["is_some(self.with)=False"] and v.startswith("alloc::borrow::Cow::Owned{syn::parse_quote::parse(") for c, v in wc)
+            ctx.ob("C01.wire.field-identity", f.key, "Field.with_callable", ok, "Field.with_callable <= %s" % wc)
+            # the fallback converter (no `with`): the type's own FromMeta::from_meta
+            fb = [(c, " ".join(T.text(s) for s in T.by_stream)) for c in [f] + ctx.closures_of(f) for T in [tpl.Templates(c)] if T.events]
+            ctx.ob("C01.wire.converter-fallback", f.key, "default converter", any(":: darling :: FromMeta :: from_meta" in txt for c, txt in fb), "parse_quote! templates: %s" % [txt[:80] for c, txt in fb])
     f = ctx.fn(IF + "as_codegen_default")
     if f:
         for c in ctx.closures_of(f):
